@@ -55,4 +55,16 @@ META = {
   "text": "Partial. Theorems: writing then reading back an identifier or string literal returns the value whenever it has no delimiter right after a backslash or another delimiter, for every delimiter; the unrestricted statement is refuted with a witness (known finding: sqlparser's heuristic escape). The model is compared with sqlparser's Display and Tokenizer on random strings. The end-to-end statement (parse -> relation -> render preserves the multiset of rows, order, names) cannot be carried by a model of this size: it is decided by executing original and rendered SQL on SQLite for generated queries and databases.",
   "note": "Trusted: Coq kernel; SQLite as reference engine; harness shims. NOT proved: sql/*.rs, expr/split.rs, relation/sql.rs (explored). Known findings: ORDER BY/LIMIT after set operations dropped, GROUP BY ordinal, ORDER BY on renamed input columns, quoting heuristic.",
  },
+ "C07": {
+  "technique": "Coq proof: declared size interval contains every cardinality allowed by the bag semantics (induction over the relation), Map column typing from the C06/C10 theorems + in-Coq differential check of the size arithmetic + SQLite execution oracle (values in declared types, row counts in declared sizes)",
+  "design_ref": "DESIGN.md section 4, C07",
+  "text": "Partial. Theorems: (1) for every relation built from tables, maps with filter/limit/offset, grouped or ungrouped reduces, the five joins and the three set operations, every number of rows the bag semantics allows lies in the size interval the constructors compute, provided unique flags occur only where Join::size is sound for them and outer/full joins and ungrouped reduces meet stated non-emptiness side conditions; (2) Join::size is refuted for outer joins with a unique flag (witness; known finding, pinned by the repository's own tests); (3) the type a Map declares for a projected integer column contains the value of every row passing the filter. The size model is compared with Relation::size() on every node of generated queries. Column types of reduces/joins/sets and non-integer columns are decided by executing generated queries on SQLite only.",
+  "note": "Trusted: Coq kernel; the cardinality semantics [card] is a definition, not derived from a row evaluator; SQLite as reference. Known findings: aggregates over empty/NULL input typed non-optional, Join::size for outer joins with unique flags. Fixed: UNION size lower bound / overflow, var/std bound rounding.",
+ },
+ "C14": {
+  "technique": "Coq proof: uniqueness is preserved along chains of injective functions; the list of functions the code treats as bijections is regenerated from the source on every run and re-proved (vm_compute) to contain no lossy function + SQLite duplicate oracle",
+  "design_ref": "DESIGN.md section 4, C14",
+  "text": "Partial. Theorems: a projection that reduces, modulo the functions listed by Function::is_bijection, to a unique column has pairwise distinct values whenever each stripped function is injective on the values it meets (generic in the meaning of the functions); every stripped function is one the code lists; the generated list (FnMeta.v, rebuilt from the code on each run) contains no function of the lossy class (casts to integer/boolean/date/time/float, abs, ceil, ...). The functions injective only up to float rounding (exp, ln, log, sqrt) are still listed: refuted theorem + known finding with an underflow witness. Reduce (FIRST) and Join propagation are decided by executing generated and targeted queries on SQLite over databases with adversarially close unique values.",
+  "note": "Trusted: Coq kernel, vm_compute, the generator (explicit list of Function variants), SQLite. Fixed by fix: commits: lossy casts listed as bijections; lone FIRST with several grouping keys.",
+ },
 }
